@@ -572,6 +572,7 @@ def run(ctx):
     lake_build(ctx, mods, {"TomlVerif.Gen.CheckEncode": "table theorems: the DEFAULT_*_DECOR constants of table.rs / value.rs / inline_table.rs",
                            "TomlVerif.Props.C06": "property theorems"})
     audit(ctx, "TomlVerif.Props.C06", "TomlVerif/Props/C06.lean")
+    extra_props(ctx, ['C06Full'])
     if ctx.tier == "thorough":
         leanchecker(ctx, "TomlVerif.Props.C06")
     tvh = cargo_build(ctx)
